@@ -244,7 +244,7 @@ def known_replay_values(entry):
     vals = list(entry["replay_values"])
     ops = [tuple(o) for o in ops]
     if vals[0] == 0:
-        return vals[:3] + [c20_orbit.ALPHABET.index(o) + 1 for o in ops] + [0]
+        return vals[:4] + [c20_orbit.ALPHABET.index(o) + 1 for o in ops] + [0]
     if vals[0] == 1:
         return vals[:7] + [c20_cm.ALPHABET.index(o) + 1 for o in ops] + [0]
     return vals
